@@ -502,12 +502,17 @@ func C09(run *hx.Run) {
 				// the journal header when it recovers). Only single-header journals (synchronous=off) are re-laid.
 				if jc == "magic-present" && strings.Contains(sc.scenario, "+nosync") && (t.k%8 == 0 || run.Thorough()) {
 					if jb, err := os.ReadFile(orig + "-journal"); err == nil && len(jb) > 512+8 && binary.BigEndian.Uint32(jb[20:24]) == 512 {
-						for _, ss := range []int{256, 64} {
+						// ... and for larger ones: 65536 is the largest SQLite takes, and does not fit 16 bits
+						sizes := [][]int{{256, 65536}, {64, 8192}}[(t.k/8)%2]
+						if run.Thorough() {
+							sizes = []int{256, 64, 32, 1024, 8192, 65536}
+						}
+						for _, ss := range sizes {
 							vdb := filepath.Join(wdir, fmt.Sprintf("sector%d.sqlite", ss))
 							os.Remove(vdb)
 							os.Remove(vdb + "-journal")
 							copyFile(orig, vdb)
-							nj := make([]byte, ss, len(jb))
+							nj := make([]byte, ss, ss+len(jb))
 							copy(nj, jb[:28])
 							binary.BigEndian.PutUint32(nj[20:24], uint32(ss))
 							nj = append(nj, jb[512:]...)
@@ -516,7 +521,7 @@ func C09(run *hx.Run) {
 							os.Remove(vrec)
 							os.Remove(vrec + "-journal")
 							if _, integ, err := o.Recover(vdb, vrec); err != nil || len(integ) != 1 || integ[0] != "ok" {
-								run.Count("small_sector_variant_not_recoverable_by_sqlite", 1)
+								run.Count(fmt.Sprintf("sector_%d_variant_not_recoverable_by_sqlite", ss), 1)
 								continue
 							}
 							vwant, err := sqliteVersioned(o, vrec)
@@ -555,6 +560,7 @@ func C09(run *hx.Run) {
 	}
 	wg.Wait()
 	c09LiveThenCrash(run, dir)
+	c09ShortJournals(run, dir)
 	run.Count("scenarios", len(scs))
 	if run.Seen("outcome", "refused-hot-journal") == 0 && run.Seen("outcome", "refused-at-open") == 0 {
 		run.Inconclusive("no crash point left a hot journal: the enumeration did not reach the interesting window")
@@ -676,6 +682,103 @@ func c09LiveThenCrash(run *hx.Run, dir string) {
 				}
 			}
 			h.Close()
+		}
+	}
+}
+
+// c09ShortJournals: "journals that are ... truncated after a completed commit do not prevent reading". SQLite
+// itself leaves journals shorter than a header (journal_mode=PERSIST with a journal_size_limit below 28 bytes);
+// plus synthetic leftovers of 1..600 bytes, all zero or starting like a journal header. Reference: what SQLite reads
+// after its own recovery of a copy. A leftover without the magic must be read; one with it is refused or read
+// as SQLite reads it.
+func c09ShortJournals(run *hx.Run, dir string) {
+	o := mustOracle(run)
+	if o == nil {
+		return
+	}
+	defer o.Close()
+	sdir := filepath.Join(dir, "shortj")
+	os.MkdirAll(sdir, 0o755)
+	base := filepath.Join(sdir, "base.sqlite")
+	mk := func(path string, limit int) error {
+		return o.Exec(path, "PRAGMA journal_mode=PERSIST", fmt.Sprintf("PRAGMA journal_size_limit=%d", limit),
+			"CREATE TABLE t(a INTEGER PRIMARY KEY, b)", "INSERT INTO t VALUES(1,'one'),(2,'two'),(3,'three')", "UPDATE t SET b=b||'!' WHERE a=2")
+	}
+	if err := mk(base, -1); err != nil {
+		run.Inconclusive("short-journal base: " + err.Error())
+		return
+	}
+	check := func(name, path string, mustRead bool) {
+		rec := filepath.Join(sdir, "rec.sqlite")
+		os.Remove(rec)
+		os.Remove(rec + "-journal")
+		tabs, _, err := o.Recover(path, rec)
+		if err != nil {
+			run.See("short_journal", name+": SQLite refuses the pair")
+			return
+		}
+		_ = tabs
+		want, err := o.Query(rec, "SELECT a, b FROM t ORDER BY a")
+		if err != nil {
+			run.See("short_journal", name+": SQLite cannot read its recovered copy")
+			return
+		}
+		run.Eval(1)
+		run.Distinct("short-journal/" + name)
+		var got []hx.Row
+		var gerr error
+		p, pm := safely(func() {
+			var d *sqlittle.DB
+			if d, gerr = sqlittle.Open(path); gerr == nil {
+				got, gerr, _ = collectSelect(d, "t", []string{"a", "b"})
+				d.Close()
+			}
+		})
+		switch {
+		case p:
+			run.Violation("C09/short-journal/panic", name+": "+firstLines(pm, 2), nil)
+		case gerr != nil && mustRead:
+			run.Violation("C09/short-journal/refused", fmt.Sprintf("journal left as %s (no journal header in it; SQLite reads the database, %d rows): sqlittle fails: %v", name, len(want), gerr), nil)
+		case gerr != nil:
+			run.See("short_journal", name+": refused")
+		case diffRows(want, got) != "":
+			run.Violation("C09/short-journal/rows", fmt.Sprintf("journal left as %s: read succeeded but differs from what SQLite reads: %s", name, diffRows(want, got)), nil)
+		default:
+			run.See("short_journal", name+": read, equal")
+		}
+	}
+	// what SQLite leaves
+	for _, limit := range []int{0, 1, 8, 16, 27, 28, 100, 600} {
+		pth := filepath.Join(sdir, fmt.Sprintf("limit%d.sqlite", limit))
+		if err := mk(pth, limit); err != nil {
+			continue
+		}
+		st, err := os.Stat(pth + "-journal")
+		if err != nil {
+			run.See("short_journal_left_by_sqlite", "none")
+			continue
+		}
+		run.See("short_journal_left_by_sqlite", fmt.Sprintf("%d bytes", st.Size()))
+		check(fmt.Sprintf("sqlite-persist-limit-%d(%dB)", limit, st.Size()), pth, journalClass(pth+"-journal") != "magic-present")
+	}
+	// synthetic
+	hdr := make([]byte, 600)
+	copy(hdr, journalMagic)
+	binary.BigEndian.PutUint32(hdr[8:], 0xffffffff)
+	binary.BigEndian.PutUint32(hdr[12:], 12345)
+	binary.BigEndian.PutUint32(hdr[16:], 2)
+	binary.BigEndian.PutUint32(hdr[20:], 512)
+	binary.BigEndian.PutUint32(hdr[24:], 4096)
+	for _, n := range []int{1, 3, 7, 8, 9, 12, 16, 20, 24, 27, 28, 29, 100, 511, 512, 600} {
+		for _, kind := range []string{"zeros", "header-prefix"} {
+			pth := filepath.Join(sdir, fmt.Sprintf("syn-%s-%d.sqlite", kind, n))
+			copyFile(base, pth)
+			j := make([]byte, n)
+			if kind == "header-prefix" {
+				copy(j, hdr)
+			}
+			os.WriteFile(pth+"-journal", j, 0o644)
+			check(fmt.Sprintf("%s-%dB", kind, n), pth, journalClass(pth+"-journal") != "magic-present")
 		}
 	}
 }
